@@ -14,6 +14,66 @@ package ast
 //@   split i 0 34
 //@   assumes @L-STACK astValuesTyped(i, rhs)
 //@   ensures @typed result1 == nil && 0 <= i && i <= 34 ==> astResultTyped(i, result0)
+// ---- C11: the typed tree has the declarations, operators, nesting and operand order that were written ----
+// nOps(v, T): number of operands v contributes to a node of operator T (its own operands if it is a T, else itself)
+//@   ensures @c34-string-term i == 34 && result1 == nil ==> unbox(result0, "string") == fmt.Sprintf("%q", anys(rhs[0].Val))
+//@   ensures @c33-32-22-1-pass-through (i == 33 || i == 32 || i == 22) && result1 == nil ==> result0 == rhs[0].Val
+//@   ensures @c1-name i == 1 && result1 == nil ==> result0 == rhs[1].Val
+//@   ensures @c31-terminal i == 31 && result1 == nil ==> (let n = unbox(result0, "*TerminalRHS") in n.Terminal == unbox(rhs[0].Val, "string") && n.Position == rhs[0].Pos)
+//@   ensures @c30-nonterminal i == 30 && result1 == nil ==> (let n = unbox(result0, "*NonTerminalRHS") in n.NonTerminal == unbox(rhs[0].Val, "string") && n.Position == rhs[0].Pos)
+//@   ensures @c27-plus i == 27 && result1 == nil ==> (let n = unbox(result0, "*PlusRHS") in n.Op == rhs[1].Val && n.Position == rhs[0].Pos)
+//@   ensures @c26-star i == 26 && result1 == nil ==> (let n = unbox(result0, "*StarRHS") in n.Op == rhs[1].Val && n.Position == rhs[0].Pos)
+//@   ensures @c25-opt i == 25 && result1 == nil ==> (let n = unbox(result0, "*OptRHS") in n.Op == rhs[1].Val && n.Position == rhs[0].Pos)
+//@   ensures @c24-group-transparent i == 24 && result1 == nil ==> result0 == rhs[1].Val
+// concatenation: operands in source order; only an operand that itself is a concatenation is flattened
+//@   ensures @c23-concat-length i == 23 && result1 == nil ==> len(unbox(result0, "*ConcatRHS").Ops) ==
+//@       (typeis(rhs[0].Val, "*ConcatRHS") ? len(unbox(rhs[0].Val, "*ConcatRHS").Ops) : 1) + (typeis(rhs[1].Val, "*ConcatRHS") ? len(unbox(rhs[1].Val, "*ConcatRHS").Ops) : 1)
+//@   ensures @c23-concat-left i == 23 && result1 == nil ==> (let r = unbox(result0, "*ConcatRHS").Ops in
+//@       (typeis(rhs[0].Val, "*ConcatRHS") ==> (forall j int :: {r[j]} 0 <= j && j < len(unbox(rhs[0].Val, "*ConcatRHS").Ops) ==> r[j] == unbox(rhs[0].Val, "*ConcatRHS").Ops[j]))
+//@       && (!typeis(rhs[0].Val, "*ConcatRHS") ==> r[0] == rhs[0].Val))
+//@   ensures @c23-concat-right i == 23 && result1 == nil ==> (let r = unbox(result0, "*ConcatRHS").Ops in let la = (typeis(rhs[0].Val, "*ConcatRHS") ? len(unbox(rhs[0].Val, "*ConcatRHS").Ops) : 1) in
+//@       (typeis(rhs[1].Val, "*ConcatRHS") ==> (forall k int :: {r[k]} la <= k && k < len(r) ==> r[k] == unbox(rhs[1].Val, "*ConcatRHS").Ops[k - la]))
+//@       && (!typeis(rhs[1].Val, "*ConcatRHS") ==> r[la] == rhs[1].Val))
+// alternation: the same for "|" (operands rhs[0] and rhs[2]); a trailing "|" adds one empty alternative at the end
+//@   ensures @c28-alt-length i == 28 && result1 == nil ==> len(unbox(result0, "*AltRHS").Ops) ==
+//@       (typeis(rhs[0].Val, "*AltRHS") ? len(unbox(rhs[0].Val, "*AltRHS").Ops) : 1) + (typeis(rhs[2].Val, "*AltRHS") ? len(unbox(rhs[2].Val, "*AltRHS").Ops) : 1)
+//@   ensures @c28-alt-left i == 28 && result1 == nil ==> (let r = unbox(result0, "*AltRHS").Ops in
+//@       (typeis(rhs[0].Val, "*AltRHS") ==> (forall j int :: {r[j]} 0 <= j && j < len(unbox(rhs[0].Val, "*AltRHS").Ops) ==> r[j] == unbox(rhs[0].Val, "*AltRHS").Ops[j]))
+//@       && (!typeis(rhs[0].Val, "*AltRHS") ==> r[0] == rhs[0].Val))
+//@   ensures @c28-alt-right i == 28 && result1 == nil ==> (let r = unbox(result0, "*AltRHS").Ops in let la = (typeis(rhs[0].Val, "*AltRHS") ? len(unbox(rhs[0].Val, "*AltRHS").Ops) : 1) in
+//@       (typeis(rhs[2].Val, "*AltRHS") ==> (forall k int :: {r[k]} la <= k && k < len(r) ==> r[k] == unbox(rhs[2].Val, "*AltRHS").Ops[k - la]))
+//@       && (!typeis(rhs[2].Val, "*AltRHS") ==> r[la] == rhs[2].Val))
+//@   ensures @c29-trailing-bar i == 29 && result1 == nil ==> (let r = unbox(result0, "*AltRHS").Ops in let la = (typeis(rhs[0].Val, "*AltRHS") ? len(unbox(rhs[0].Val, "*AltRHS").Ops) : 1) in
+//@       len(r) == la + 1 && typeis(r[la], "*EmptyRHS")
+//@       && (typeis(rhs[0].Val, "*AltRHS") ==> (forall j int :: {r[j]} 0 <= j && j < la ==> r[j] == unbox(rhs[0].Val, "*AltRHS").Ops[j]))
+//@       && (!typeis(rhs[0].Val, "*AltRHS") ==> r[0] == rhs[0].Val))
+// rules, handles, directives, token declarations
+//@   ensures @c21-empty-rule i == 21 && result1 == nil ==> (let n = unbox(result0, "*RuleDecl") in n.LHS == unbox(rhs[0].Val, "string") && typeis(n.RHS, "*EmptyRHS") && n.Position == rhs[0].Pos)
+//@   ensures @c20-rule i == 20 && result1 == nil ==> (let n = unbox(result0, "*RuleDecl") in n.LHS == unbox(rhs[0].Val, "string") && n.RHS == rhs[2].Val && n.Position == rhs[0].Pos)
+//@   ensures @c19-rule-handle i == 19 && result1 == nil ==> result0 == rhs[1].Val
+//@   ensures @c18-production-handle i == 18 && result1 == nil ==> (let r = unbox(result0, "[]PrecedenceHandle") in let rule = unbox(rhs[0].Val, "*RuleDecl") in
+//@       len(r) == 1 && typeis(r[0], "*ProductionHandle") && unbox(r[0], "*ProductionHandle").LHS == rule.LHS && unbox(r[0], "*ProductionHandle").RHS == rule.RHS && unbox(r[0], "*ProductionHandle").Position == rhs[0].Pos)
+//@   ensures @c17-terminal-handle i == 17 && result1 == nil ==> (let r = unbox(result0, "[]PrecedenceHandle") in
+//@       len(r) == 1 && typeis(r[0], "*TerminalHandle") && unbox(r[0], "*TerminalHandle").Terminal == unbox(rhs[0].Val, "string") && unbox(r[0], "*TerminalHandle").Position == rhs[0].Pos)
+//@   ensures @c16-append-production-handle i == 16 && result1 == nil ==> (let r = unbox(result0, "[]PrecedenceHandle") in let h = unbox(rhs[0].Val, "[]PrecedenceHandle") in let rule = unbox(rhs[1].Val, "*RuleDecl") in
+//@       len(r) == len(h) + 1 && (forall j int :: {r[j]} 0 <= j && j < len(h) ==> r[j] == h[j]) && typeis(r[len(h)], "*ProductionHandle")
+//@       && unbox(r[len(h)], "*ProductionHandle").LHS == rule.LHS && unbox(r[len(h)], "*ProductionHandle").RHS == rule.RHS && unbox(r[len(h)], "*ProductionHandle").Position == rhs[1].Pos)
+//@   ensures @c15-append-terminal-handle i == 15 && result1 == nil ==> (let r = unbox(result0, "[]PrecedenceHandle") in let h = unbox(rhs[0].Val, "[]PrecedenceHandle") in
+//@       len(r) == len(h) + 1 && (forall j int :: {r[j]} 0 <= j && j < len(h) ==> r[j] == h[j]) && typeis(r[len(h)], "*TerminalHandle")
+//@       && unbox(r[len(h)], "*TerminalHandle").Terminal == unbox(rhs[1].Val, "string") && unbox(r[len(h)], "*TerminalHandle").Position == rhs[1].Pos)
+//@   ensures @c12-14-directive (i == 12 || i == 13 || i == 14) && result1 == nil ==> (let n = unbox(result0, "*PrecedenceDecl") in
+//@       n.Associativity == (i == 12 ? lr.LEFT : (i == 13 ? lr.RIGHT : lr.NONE)) && n.Handles == unbox(rhs[1].Val, "[]PrecedenceHandle") && n.Position == rhs[0].Pos)
+//@   ensures @c11-predef-token i == 11 && result1 == nil ==> (let n = unbox(result0, "*RegexTokenDecl") in unbox(rhs[2].Val, "string") in parser.Predefs
+//@       && n.Name == unbox(rhs[0].Val, "string") && n.Regex == parser.Predefs[unbox(rhs[2].Val, "string")] && n.Position == rhs[0].Pos)
+//@   ensures @c11-unknown-predef i == 11 && !(unbox(rhs[2].Val, "string") in parser.Predefs) ==> result1 != nil
+//@   ensures @c10-regex-token i == 10 && result1 == nil ==> (let n = unbox(result0, "*RegexTokenDecl") in n.Name == unbox(rhs[0].Val, "string") && n.Regex == unbox(rhs[2].Val, "string") && n.Position == rhs[0].Pos)
+//@   ensures @c9-string-token i == 9 && result1 == nil ==> (let n = unbox(result0, "*StringTokenDecl") in n.Name == unbox(rhs[0].Val, "string") && n.Value == unbox(rhs[2].Val, "string") && n.Position == rhs[0].Pos)
+//@   ensures @c4-5-6-decl (i == 4 || i == 5 || i == 6) && result1 == nil ==> result0 == rhs[0].Val
+//@   ensures @c2-decls-append i == 2 && result1 == nil ==> (let r = unbox(result0, "[]Decl") in let n = (rhs[0].Val == nil ? 0 : len(unbox(rhs[0].Val, "[]Decl"))) in
+//@       len(r) == n + 1 && r[n] == rhs[1].Val && (forall j int :: {r[j]} 0 <= j && j < n ==> r[j] == unbox(rhs[0].Val, "[]Decl")[j]))
+//@   ensures @c0-grammar i == 0 && result1 == nil ==> (let g = unbox(result0, "*Grammar") in g.Name == unbox(rhs[0].Val, "string") && g.Position == rhs[0].Pos
+//@       && (rhs[1].Val == nil ==> len(g.Decls) == 0) && (rhs[1].Val != nil ==> g.Decls == unbox(rhs[1].Val, "[]Decl")))
+//@   ensures @no-error-but-unknown-predef result1 != nil ==> i == 11 || i < 0 || i > 34
 
 //@ func Parse(filename string, src io.Reader) (*Grammar, error)
 //@   modifies heap
